@@ -74,6 +74,8 @@ _mk("C02", "C02 (four structural conditions): branch bookkeeping is driven by a 
     "information-flow shape of the stack updates, reaching-definition identity of slice operands, guard structure of attribute stores, finite evaluation of the bond-order ladder")
 _mk("C16", "C16: node coverage (both element kinds, repeat and end tokens, one node per descriptor, identity hashing), for each of the probability families the normaliser loop and the edge loop agree on collection / filter / term, scalar-weight probability edges are control-dependent on is_compatible of their endpoints, edge pools equal the generator's pools, zero-weight targets excluded from constant edges. Numeric equality in degenerate cases is NOT decided.",
     "sibling agreement between accumulate and emit loops (conjunct sets modulo loop-variable renaming), control dependence of add_edge sites, provenance of the normalised list")
+_mk("C17", "C17: both element kinds dispatched, one node per atom of the token's own fragment with that atom's attributes, counter/offset lockstep, one static edge per bond with its order, every non-static edge control-dependent on is_compatible of exactly its two endpoint descriptors with their order and exactly one weight of the right provenance, endpoints use their own token's offset, transition-list alignment over the full descriptor list, no edge leaves an end group, targets of growth / termination / transition edges of the right kind. Completeness of edges for all molecules is NOT decided.",
+    "control dependence and provenance of add_edge sites, sibling agreement over the three edge families, lockstep bookkeeping by statement order and CFG reachability")
 
 NOT_APPLICABLE = {}
 for _i in range(1, 21):
